@@ -415,9 +415,46 @@ func acceptDigest(c *Ctx, rule string) {
 					}
 				case ev.Static != nil && extName(ev.Static) == "(*encoding/base64.Encoding).EncodeToString":
 					enc = ev
-				case ev.Static != nil && strings.HasPrefix(extName(ev.Static), "crypto/"):
+				case ev.Static != nil && strings.HasPrefix(extName(ev.Static), "crypto/") && extName(ev.Static) != "crypto/sha1.Sum":
 					ok, why = false, "unexpected digest function "+extName(ev.Static)
 				}
+			}
+			if h == nil && enc != nil {
+				// one-shot form: sha1.Sum(append([]byte(key), keyGUID...)) then base64 of sum[:]
+				var one *core.Event
+				for i := range p.Events {
+					ev := &p.Events[i]
+					if ev.Kind == core.EvCall && ev.Static != nil && extName(ev.Static) == "crypto/sha1.Sum" {
+						one = ev
+					}
+				}
+				good := one != nil && one.Args[0].Kind == core.KAppend
+				if good {
+					a, b := strip(one.Args[0].Args[0]), one.Args[0].Args[1]
+					good = a.Kind == core.KParam && b.Kind == core.KLoad && b.Args[0].Kind == core.KGlobal && b.Args[0].Ref == interface{}(keyGUID)
+				}
+				if good {
+					// the digest array is stored in a local and sliced whole for the encoder
+					src := enc.Args[1]
+					good = src.Kind == core.KSlice && src.Args[0].Kind == core.KAlloc && src.Args[1].Kind == core.KNone && src.Args[2].Kind == core.KNone && p.Results[0] == enc.Result
+					if good {
+						stored := false
+						for i := range p.Events {
+							if ev := &p.Events[i]; ev.Kind == core.EvStore && ev.Addr == src.Args[0] && ev.Val == one.Result {
+								stored = true
+							}
+						}
+						good = stored
+					}
+				}
+				if !good {
+					ok, why = false, "computeAcceptKey is not base64(sha1(key || keyGUID))"
+				}
+				e := enc.Args[0]
+				if !(e.Kind == core.KLoad && e.Args[0].Kind == core.KGlobal && e.Args[0].Ref.(*ssa.Global).Name() == "StdEncoding") {
+					ok, why = false, "the digest is not encoded with base64.StdEncoding"
+				}
+				return
 			}
 			if h == nil || len(writes) != 2 || sum == nil || enc == nil {
 				ok, why = false, "computeAcceptKey is not sha1 over exactly two writes followed by base64"
